@@ -403,7 +403,7 @@ fn run_case(case_seed: u64, r: &mut Report, args: &Args, only_image: Option<&str
     r.count("distinct_store_states", states.len() as u64);
 
     // level 0: every image
-    let budget_imgs = args.by_tier(140usize, 400usize);
+    let budget_imgs = args.extra_u64("images", args.by_tier(140, 400)) as usize;
     let mut order: Vec<usize> = (0..sess.imgs.len()).collect();
     if order.len() > budget_imgs {
         rng.shuffle(&mut order);
@@ -430,7 +430,7 @@ fn run_case(case_seed: u64, r: &mut Report, args: &Args, only_image: Option<&str
     }
     // chains: recover from an image, write more, crash again (up to 3 crashes)
     rng.shuffle(&mut chain_candidates);
-    let n_chains = args.by_tier(3usize, 8usize);
+    let n_chains = args.extra_u64("chains", args.by_tier(3, 8)) as usize;
     for &i in chain_candidates.iter().take(n_chains) {
         let mut cur_sess_imgs: Img = sess.imgs[i].clone();
         let mut cur_sess: Option<Session> = None;
